@@ -31,7 +31,7 @@ PLAN = {
     'C06': {'gated': (['barrier', 'ctl', 'cancel', 'stop2'], 72, 800), 'free': (['barrier', 'ctl'], 64, 1200), 'model': ['MC_core']},
     'C07': {'gated': (['handle', 'basic', 'batch'], 64, 750), 'free': (['handle', 'batch', 'storm'], 72, 1500), 'model': []},
     'C08': {'gated': ([('batch', 5), 'reject'], 168, 1600), 'free': ([('batch', 3), 'storm'], 96, 2400), 'model': []},
-    'C09': {'gated': (['ctl', 'barrier'], 64, 750), 'free': (['ctl'], 64, 1200), 'model': ['MC_core']},
+    'C09': {'gated': (['ctl', 'barrier', 'stop2'], 72, 800), 'free': (['ctl'], 64, 1200), 'model': ['MC_core']},
     'C10': {'gated': (['cancel', 'batch', 'reject'], 72, 800), 'free': (['cancel'], 64, 1200), 'model': ['MC_core']},
     'C04': {'gated': (['basic', 'multi', 'barrier', 'cancel'], 64, 750), 'free': (['basic'], 48, 800), 'model': []},
     'C11': {'gated': ([('adapter', 3), 'distbind'], 72, 700), 'free': (['adapter'], 48, 800), 'model': [], 'crash': (40, 600)},
